@@ -34,6 +34,9 @@ lane() {
   (cd "$VERIF/gensim" && tar cf - --exclude=target --exclude=build.log .) | (cd "$G" && tar xf -)
   # the simulator names the repository by absolute path in a handful of places
   grep -rl '/repo' "$G" --include='*.rs' --include='*.toml' | xargs sed -i "s#\\([^.]\\)/repo\\([/\"]\\)#\\1$REPO\\2#g"
+  mkdir -p "$L/becheck"
+  (cd "$VERIF/becheck" && tar cf - --exclude=target --exclude=setup.log .) | (cd "$L/becheck" && tar xf -)
+  sed -i "s#\"/repo#\"$REPO#g" "$L/becheck/Cargo.toml"
   local BIN="$G/target/release/gensim"
   local fallback=""
   build() {
@@ -70,7 +73,7 @@ lane() {
     else
       rm -rf "$OUT/replays"
       timeout 1500 "$BIN" check --tier quick --seed "${VERIF_SEED:-1}" --evidence "$OUT/ev.json" --replay-dir "$OUT/replays" \
-        --real-bins "$G/target/realbins/debug" --real-cwd "$G/target/realws/unic-langid-impl" >"$OUT/log" 2>&1; local rc=$?
+        --real-bins "$G/target/realbins/debug" --real-cwd "$G/target/realws/unic-langid-impl" --becheck "$L/becheck" >"$OUT/log" 2>&1; local rc=$?
       local viol first rp
       viol=$(grep -c '^VIOLATION' "$OUT/log")
       first=$(grep -m1 '^violation:' "$OUT/log" | cut -c1-140)
